@@ -714,6 +714,11 @@ NET_KINDS = [
     [{"kind": "status", "code": 429}],
     [{"kind": "status", "code": 500}],
     [{"kind": "status", "code": 503}],
+    # statuses below 400 that are not 200, delivered with a parseable part of the entry: the
+    # transport says "this is not the complete / authoritative / processed entry"
+    [{"kind": "status", "code": 206, "fault": {"kind": "cutlines", "frac": 0.6}}],
+    [{"kind": "status", "code": 203, "fault": {"kind": "cutlines", "frac": 0.8}}],
+    [{"kind": "status", "code": 202, "fault": {"kind": "cutlines", "frac": 0.5}}],
     [{"kind": "body", "fault": {"kind": "empty"}}],
     [{"kind": "body", "fault": {"kind": "html"}}],
     [{"kind": "body", "fault": {"kind": "short", "at": 3000}}],
